@@ -139,7 +139,13 @@ pub fn body_id(ep: Ep, method: u8, path: &[Vec<u8>], version: u32) -> u64 {
         h.bytes(s);
     }
     h.u64(version as u64);
-    h.0
+    // every other response body is "patterned" (zero bytes, runs, text, a
+    // trailing 0xFF); nothing depends on zero-freeness of downloads
+    if h.0 & 1 == 1 {
+        h.0 | BODY_PATTERNED
+    } else {
+        h.0 & !BODY_PATTERNED
+    }
 }
 
 pub fn raw_path(p: &Packet) -> Vec<Vec<u8>> {
